@@ -514,7 +514,10 @@ func check(c Case) pbt.Verdict {
 	}
 	if firstBad != "" {
 		sig := "solo-vs-concurrent-differ"
-		if strings.Contains(firstBad, "the working name scratch") {
+		if strings.Contains(firstBad, "timeout while") {
+			// the shared 25 s context ran out: a deadlock if it reproduces, machine load if it does not
+			sig = "hang:timeout-under-concurrency"
+		} else if strings.Contains(firstBad, "the working name scratch") {
 			sig = "local-definition-leaked"
 		} else if strings.Contains(firstBad, "inconsistent shared") {
 			sig = "torn-global"
